@@ -140,6 +140,22 @@ type Scenario struct {
 	// Express: before every evaluation each organism's network is requested (Organism.Phenotype) and activated once, as an
 	// evaluator does: the parents of the turnover carry phenotypes with a past
 	Express bool `json:"organisms_expressed_before_evaluation,omitempty"`
+	// FitSwitch: from epoch At on the organisms are evaluated by another fitness program (a task whose reward changes: a
+	// positive record followed by all-zero values, a constant landscape that becomes heavy-tailed ...)
+	FitSwitch *FitSwitch `json:"fitness_program_changes,omitempty"`
+}
+
+type FitSwitch struct {
+	At  int         `json:"at"`
+	Fit FitnessProg `json:"fitness"`
+}
+
+// fitAt: the fitness program in force at an epoch.
+func (sc Scenario) fitAt(e int) FitnessProg {
+	if sc.FitSwitch != nil && e >= sc.FitSwitch.At {
+		return sc.FitSwitch.Fit
+	}
+	return sc.Fit
 }
 
 type WarmSpec struct {
@@ -170,6 +186,8 @@ type ScenarioCfg struct {
 	CancelTail   bool // every second history ends with a turnover under a cancelled context
 	Retry        bool // one history in six contains a turnover that is cancelled half way and then repeated
 	Warm         bool // one history in four runs with an executor and/or options object that was used before (see WarmSpec)
+	WideStolen   bool // one history in six asks for more stolen babies than half the population (up to three times its size)
+	FitRegimes   bool // one history in five changes its fitness program at a generated epoch
 }
 
 func genScenario(cfg ScenarioCfg) *rapid.Generator[Scenario] {
@@ -245,6 +263,14 @@ func genScenario(cfg ScenarioCfg) *rapid.Generator[Scenario] {
 			sc.Opts.SurvivalThresh = 1
 		}
 		sc.Express = rapid.IntRange(0, 2).Draw(t, "organisms expressed") == 0
+		if cfg.WideStolen && rapid.IntRange(0, 5).Draw(t, "many stolen babies") == 0 {
+			sc.Opts.BabiesStolen = rapid.IntRange(sc.Opts.PopSize/2+1, 3*sc.Opts.PopSize).Draw(t, "babies stolen (many)")
+		}
+		if cfg.FitRegimes && sc.Epochs >= 2 && rapid.IntRange(0, 4).Draw(t, "fitness regimes") == 0 {
+			sc.FitSwitch = &FitSwitch{At: rapid.IntRange(1, sc.Epochs-1).Draw(t, "fitness switch at"),
+				Fit: FitnessProg{Kind: rapid.SampledFrom(cfg.FitnessKinds).Draw(t, "second fitness program"),
+					Scale: rapid.SampledFrom([]float64{1, 1, 0.01, 16, 1e6, 1e-6, 1e-14}).Draw(t, "second fitness scale"), Salt: int64(rapid.IntRange(0, 1<<20).Draw(t, "second fitness salt"))}}
+		}
 		if rapid.IntRange(0, 4).Draw(t, "winner flags") == 0 {
 			sc.Winners = rapid.SampledFrom([]int{1, 2, 3, 7}).Draw(t, "winner one in")
 		}
@@ -480,6 +506,12 @@ func runScenario(sc Scenario, h epochHooks, rec *Rec) error {
 	}
 	rec.Class("constructor:" + sc.Ctor)
 	rec.Class("fitness:" + sc.Fit.Kind)
+	if sc.FitSwitch != nil {
+		rec.Class("fitness program changes during the history")
+	}
+	if sc.Opts.BabiesStolen > sc.Opts.PopSize/2 {
+		rec.Class("more stolen babies requested than half the population")
+	}
 	if sc.ExcludedKnown != "" {
 		rec.Class("excluded by construction (known finding): " + sc.ExcludedKnown)
 	}
@@ -554,7 +586,7 @@ func runScenario(sc Scenario, h epochHooks, rec *Rec) error {
 		}
 		n := len(pop.Organisms)
 		for i, o := range pop.Organisms {
-			o.Fitness = fitnessOf(sc.Fit, e, i, n, o.Genotype)
+			o.Fitness = fitnessOf(sc.fitAt(e), e, i, n, o.Genotype)
 			if sc.Winners > 0 {
 				o.IsWinner = int(unitHash(sc.Fit.Salt, int64(e), int64(i), 77)*1000)%sc.Winners == 0
 			}
@@ -582,7 +614,7 @@ func runScenario(sc Scenario, h epochHooks, rec *Rec) error {
 					return nil
 				}
 				for i, o := range pop.Organisms {
-					o.Fitness = fitnessOf(sc.Fit, e, i, n, o.Genotype)
+					o.Fitness = fitnessOf(sc.fitAt(e), e, i, n, o.Genotype)
 				}
 				rec.Class("turnover repeated after a cancelled attempt")
 			}
